@@ -6,6 +6,10 @@
 set -u
 cd "$(dirname "$0")"
 VERIF="$(pwd)"
+# one self-test at a time: all runs share the driver build directory .build/selftest
+mkdir -p "$VERIF/.build"
+exec 9>"$VERIF/.build/selftest.lock"
+flock 9
 SCR=/var/tmp/mcx-selftest.$$
 OUT="$SCR/out"
 mkdir -p "$OUT"
